@@ -69,6 +69,11 @@ CHECKS = {
             "For every generated transfer configuration (sizes around package boundaries, package sizes 1..4096 and = file, 1-3 concurrent transfers, both byte orders, names with directory parts, interleaving with unrelated traffic, auto-save directory pre-seeded) EVERY single fault on the first transfer is enumerated: drop/duplicate (adjacent, delayed)/swap/resize of each package, drop announcement, drop end marker. Oracle: completeness exactly as stated, bit-exact content through the plugin's save command and auto-save, never complete/saved when damaged, no overwrite, nothing outside the configured directory (canary parent scanned). Configurations are sampled, faults per configuration are enumerated.",
             "With the announcement dropped only the safety half is demanded; announcement always truthful; completion read from the plugin's published state.",
             "DESIGN.md §6 C17"),
+    "C18": ("streamsim", "fault_enumeration",
+            "deterministic simulation with enumerated stored-data faults: library encoders -> frame -> real writer/parser -> argument decoder and text rendering under every truncation point and single-field corruption",
+            "For every generated typed value sequence (all supported types and widths, extreme values, NaN/inf/-0, empty/long strings with control and non-UTF-8 bytes, raw data; both byte orders through payload_from_args, host order through the serde serializer) the fault-free configuration checks count, types, raw values and the canonical text (independent formatter), then EVERY truncation point (all up to 4 KiB, every 97th beyond) and every single-field corruption (11 type-info words, 5 length prefixes per field, 4 noar values) is decoded: intact prefix, stop at structurally invalid fields, slices inside the payload, no panic. Value sequences are sampled; faults per sequence are enumerated.",
+            "Second-weakest fit (pure codec in the fault-free half); corruptions that yield another well-formed list only have to keep the preceding arguments intact.",
+            "DESIGN.md §6 C18"),
 }
 
 NOT_APPLICABLE = {
